@@ -64,4 +64,5 @@ CASES = [
     dict(name="uniform-uses-std-not-var", file=A, expect="R19.3", old="erf((field - mean) / np.sqrt(2 * var))", new="erf((field - mean) / np.sqrt(2) / var)"),
     dict(name="twin-mask-rewritten", kind="twin", file=A, old="np.logical_and(thresholds[i] < field, field <= thresholds[i + 1])", new="np.logical_and(field > thresholds[i], np.logical_not(field > thresholds[i + 1]))"),
     dict(name="twin-edge-rewritten", kind="twin", file=A, old="    result[field <= thresholds[0]] = values[0]", new="    result[np.logical_not(field > thresholds[0])] = values[0]"),
+    dict(name="uniform-mean-truthiness", file="transform/array.py", expect="R19.4", old="    mean = np.mean(field) if mean is None else float(mean)\n    var = np.var(field) if var is None else float(var)\n    return (\n        0.5", new="    mean = float(mean) if mean else np.mean(field)\n    var = np.var(field) if var is None else float(var)\n    return (\n        0.5"),
 ]
